@@ -99,8 +99,8 @@ Proof.
 Qed.
 
 (* of-date rectangular coordinates: the norm is the radius vector to 2e-10 (relative), with no
-   assumption (years 0 .. 4000, where the mean obliquity polynomial is characterised) *)
-Theorem sun_rect_of_date_norm_unconditional jde : Rabs (uj jde) <= 0.2 ->
+   assumption (years -2000 .. 6000) *)
+Theorem sun_rect_of_date_norm_unconditional jde : Rabs (uj jde) <= 0.4 ->
   exists lon lat R x y z,
     Sun_geometric_geocentric_position Rops (VObj cEpoch [VFloat jde]) (VBool true) =
       VTuple [ang lon; ang lat; VFloat R] /\
@@ -112,7 +112,7 @@ Proof.
   assert (Hj : jde_lo <= jde <= jde_hi).
   { apply Rabs_le_bounds in Hu. unfold uj in Hu.
     unfold jde_lo, jde_hi, C07_mono_code.jde_lo, C07_mono_code.jde_hi.
-    assert (-730500 <= jde - 2451545 <= 730500).
+    assert (-1461000 <= jde - 2451545 <= 1461000).
     { replace (jde - 2451545) with ((jde - 2451545) / 3652500 * 3652500) by field. split; nra. }
     lra. }
   destruct (sun_geometric_unconditional jde Hj) as (L & B & R & _ & Hs & _ & HB).
